@@ -8,6 +8,7 @@ func init() {
 			"Non-trivial: the transformed alignment differs from the original as a byte matrix and the matrix has a finite non-zero entry (relations); >= 3 computed pairs and a finite non-zero entry (threads; always >= 2 threads); >= 1 call of the failing method (faults); distinct = distinct JSON form of the case",
 		Assumptions: []string{
 			"the race detector and varied GOMAXPROCS explore interleavings, they do not enumerate them: a race that needs a rare schedule can be missed",
+			"the relative tolerance of a pair whose smallest log argument is x is 1e-9 + 2 x 4e-14/x (divided by alpha under gamma with alpha < 1): two presentations round the argument differently and -ln x / x^(-1/alpha) amplify that (seen in the thorough tier: x = 1.19e-6, F84+gamma, 1.6e-9 apart; regress/c08/c08-near-ill-boundary-*.json)",
 			"pairs whose smallest log argument is within 1e-6 of 0, or whose classification differs between the accepted readings of C07, are not compared by the relations (counted as ill_conditioned); the substitute 2*max is compared only when no such pair exists in the matrix",
 			"the transformations done through the goalign API (SelectSites, ReverseComplement) are checked against rows built by the harness; their correctness is the subject of C04/C06",
 			"thread counts up to 32 = 2 x the 16 cores of the reference machine",
